@@ -37,6 +37,7 @@ def parseEnv (s : String) : Option Env :=
     let e ← err.toInt?; let b ← ofHex d
     pure (.reply e b (f == "1"))
   | ["EOF"] => some .eof
+  | ["IDLE"] => some .eof
   | ["IOERR"] => some .ioerr
   | ["MS", "fail"] => some (.mechStart none)
   | ["MS", t] => do let b ← ofHex t; pure (.mechStart (some b))
@@ -109,6 +110,10 @@ def step (line : String) : String :=
             | none => "reject"
         let holds := match impl.splitOn ";" with
           | [journal, result, closed] =>
+            -- `idle`: the fake broker closed a connection that stayed silent for 1.5 s; then nothing is expected of the
+            -- outcome beyond the other clauses (a slow machine must not look like wrong credentials)
+            let idle := (commaList envs).contains "IDLE"
+            let expect := if idle then "any" else expect
             match (commaList journal).mapM parseSeen with
             | some seen =>
               let failed := es.any isFailure
